@@ -18,7 +18,7 @@ RULE = (
     "a minimal instance (from source where the grammar allows, built as a node otherwise), inserted at EVERY statement position (before each statement and "
     "at the end of each suite, unreachable positions included) of (a) five fixed skeletons (top level, if/else arms, loop body, loop else, after a loop; "
     "exhaustive: node type x position) and (b) Hypothesis-drawn programs of the supported subset (sampled positions), handed to AST2SCFG as a node list and, "
-    "when it unparses, as source text, with prune on and off. Oracle: NotImplementedError is raised. Non-function inputs (module-level statements, a "
+    "when it unparses, as source text, with prune on and off, and a second request on the same transformer object after a refusal. Oracle: NotImplementedError is raised. Non-function inputs (module-level statements, a "
     "function followed by other statements, class, async function, expression statement, empty list / string, non-AST objects) must raise and build no graph. "
     "Non-trivial = placement depth >= 1 (inside a compound statement). Distinct = hash of (program, node type, position)."
 )
@@ -131,7 +131,22 @@ def insert_at(tree, path, idx, node):
 
 def expect_refusal(tree, as_source=True):
     """-> None or failure message"""
-    variants = [("nodes,prune", lambda: AST2SCFGTransformer(copy.deepcopy(tree), prune=True).transform_to_SCFG()), ("nodes,noprune", lambda: AST2SCFGTransformer(copy.deepcopy(tree), prune=False).transform_to_ASTCFG())]
+    def retry(prune):
+        # a refused conversion stays refused when the same transformer is asked again
+        t = AST2SCFGTransformer(copy.deepcopy(tree), prune=prune)
+        try:
+            t.transform_to_SCFG()
+        except NotImplementedError:
+            pass
+        else:
+            return  # reported by the single-shot variants
+        t.transform_to_ASTCFG()
+
+    variants = [
+        ("nodes,prune", lambda: AST2SCFGTransformer(copy.deepcopy(tree), prune=True).transform_to_SCFG()),
+        ("nodes,noprune", lambda: AST2SCFGTransformer(copy.deepcopy(tree), prune=False).transform_to_ASTCFG()),
+        ("retry on the same transformer", lambda: retry(True)),
+    ]
     if as_source:
         try:
             src = ast.unparse(ast.fix_missing_locations(ast.Module(body=copy.deepcopy(tree), type_ignores=[])))
